@@ -10,7 +10,8 @@ use sqldatetime::{Date, IntervalDT, IntervalYM, OracleDate, Time, Timestamp};
 
 kinds!(K { New = "OracleDate::new", FromTs = "OracleDate::from(Timestamp)", TryUsecs = "OracleDate::try_from_usecs", AddDt = "OracleDate::add_interval_dt", SubDt = "OracleDate::sub_interval_dt",
            AddYm = "OracleDate::add_interval_ym", SubYm = "OracleDate::sub_interval_ym", AddDays = "OracleDate::add_days", SubDays = "OracleDate::sub_days",
-           TsAddDays = "Timestamp::oracle_add_days", TsSubDays = "Timestamp::oracle_sub_days", SubDate = "OracleDate::sub_date", Conv = "OracleDate conversions" });
+           TsAddDays = "Timestamp::oracle_add_days", TsSubDays = "Timestamp::oracle_sub_days", SubDate = "OracleDate::sub_date", Conv = "OracleDate conversions",
+           Shape = "OracleDate trunc/round/last_day_of_month results" });
 pub type C = G<K>;
 impl Case for C {
     fn to_json(&self) -> Value {
@@ -28,6 +29,42 @@ fn ora(u: i64) -> OracleDate {
 pub fn check(st: &mut Stats, c: &C) {
     let name = c.k.name();
     match c.k {
+        K::Shape => {
+            // "every Oracle-style date obtained from ... truncation or rounding has a zero sub-second part and lies [in range]";
+            // the last day of the month keeps the time of day
+            use crate::trmodel::{lib_round_ora, lib_trunc_ora, UNITS};
+            let o = ora(c.a);
+            let whole = |st: &mut Stats, what: &str, v: i64| {
+                if v.rem_euclid(SEC) != 0 || !(TS_MIN..=ORA_MAX).contains(&v) {
+                    st.fail(format!("C16/{}/result-not-a-whole-second-in-range", what), format!("OracleDate {} -> {}", c.a, v));
+                }
+            };
+            for u in UNITS {
+                st.op(Op::O_trunc);
+                if let Ok(r) = lib_trunc_ora(u, o) {
+                    st.obs(Op::O_trunc, &r);
+                    whole(st, "trunc", r.usecs());
+                    if r.usecs() > c.a {
+                        st.fail("C16/trunc/moves-forward", format!("OracleDate {} trunc_{} -> {}", c.a, u.name(), r.usecs()));
+                    }
+                }
+                st.op(Op::O_round);
+                if let Ok(r) = lib_round_ora(u, o) {
+                    st.obs(Op::O_round, &r);
+                    whole(st, "round", r.usecs());
+                }
+            }
+            st.op(Op::O_last_day_of_month);
+            let r = o.last_day_of_month();
+            st.obs(Op::O_last_day_of_month, &r);
+            whole(st, "last_day_of_month", r.usecs());
+            let (n, tod) = (c.a.div_euclid(DAY_US), c.a.rem_euclid(DAY_US));
+            let (y, m, d) = cal().of(n as i32);
+            let exp = (n + (crate::cal::dim(y as i64, m) - d) as i64) * DAY_US + tod;
+            if r.usecs() != exp {
+                st.fail("C16/last_day_of_month/wrong", format!("OracleDate {} ({:?}) -> {} expected {}", c.a, (y, m, d), r.usecs(), exp));
+            }
+        }
         K::New => {
             let (n, tod) = (c.a as i32, c.b);
             st.op(Op::O_new);
@@ -220,6 +257,16 @@ pub fn run(ctx: &Ctx, st: &mut Stats) {
     if stride == 1 {
         st.mark_exhaustive("dates x critical-times x sub-second {0,1,499999,500000,999999}", "all dates x critical times x 5 sub-second parts for new/from(Timestamp)/try_from_usecs");
     }
+    // truncation, rounding and last day of month: results are whole seconds in range (all units), many threads at once
+    let sstride = ctx.tier.pick(20_011, ctx.q(11, 3), 1);
+    ctx.par(st, "dates x whole-second times: results of all 24 trunc/round units and last_day_of_month", true, 0, N_DAYS as i64 / sstride, |st, i, _| {
+        let n = MIN_DAY as i64 + i * sstride;
+        let t = times_ref[(i % nt) as usize];
+        st.eval(&C::ab(K::Shape, n * DAY_US + t, 0), check);
+        if i % 16 == 0 {
+            st.eval(&C::ab(K::Shape, n * DAY_US + 86_399 * SEC, 0), check);
+        }
+    });
     let bts = bit_times();
     let dpool = date_pool();
     let (bts_ref, dpool_ref) = (&bts, &dpool);
